@@ -76,6 +76,11 @@ def case_s(draw) -> dict[str, Any]:
         runs[k]["url"], runs[k]["name"] = runs[0]["url"], runs[0]["name"]
         target = 0
         select = draw(st.sampled_from(["name", "name+props"]))
+        if draw(st.booleans()):
+            # ... and it is the later scan (other software version: its properties differ) that is to be replayed: name and
+            # properties together single it out
+            target = k
+            select = draw(st.sampled_from(["name+props", "name+props", "props"]))
     if n > 1 and len({r["url"] for r in runs}) == n and draw(st.integers(0, 3)) == 0:
         # the target ECU is also reachable under a second address (a short probe was recorded there earlier): selection by ECU
         # name has to cover all addresses of that ECU
